@@ -1137,6 +1137,20 @@ def run(ctx):
         D = dft(k)
         if ukey(D) not in seen:
             seen[ukey(D)] = (D, f"DFT k={k}")
+        # a beamsplitter embedded on every ordered pair of modes (adjacent or not), alone and followed by a second one on a
+        # pair that is not adjacent: exact zeros in the patterns the nulling routines special-case
+        emb = [(bT(i, j, th, phv, k), f"T{i}{j}({th:.3g},{phv})") for i in range(k) for j in range(k) if i != j for th, phv in ((math.pi / 4, 0.0), (0.3, 0.7))]
+        n_emb = 0
+        for G, name in emb:
+            if ukey(G) not in seen:
+                seen[ukey(G)] = (G, f"embedded pair k={k}: {name}")
+                n_emb += 1
+        for (G1, n1), (G2, n2) in itertools.product(emb, [e for e in emb if abs(int(e[1][1]) - int(e[1][2])) >= 2]):
+            for M, nm in ((G2 @ G1, f"{n1} then {n2}"), (G1 @ G2, f"{n2} then {n1}")):
+                if ukey(M) not in seen:
+                    seen[ukey(M)] = (M, f"embedded pair product k={k}: {nm}")
+                    n_emb += 1
+        orbit_info[f"unitary_k{k}"]["embedded_pair_inputs"] = n_emb
         orbit_info[f"unitary_k{k}"].update({"signed_permutations": n_perm, "signed_permutations_not_in_orbit": n_perm_new, "perturbed_permutations": n_perm, "distinct_inputs": len(seen)})
         n_unitaries += len(seen)
         items = list(seen.values())
